@@ -338,3 +338,220 @@ def rust_source(rng, nfun):
             emit(" n += %s::<u16> as usize; n += %s::<f32> as usize;" % (p, p))
     emit(" n }")
     return "\n".join(lines) + "\n", linemap
+
+
+# ---------------------------------------------------------------------------------------------
+# class templates with non-type template arguments (expr-primary / expression forms)
+
+PRELUDE = r'''
+void fn0() {} void fn1(int) {} int gv0; long gv1[4];
+struct KM { int m; void mf() {} static int sm; static void sf() {} int operator()(int) { return 0; } };
+int KM::sm;
+enum E0 { E0a, E0b = 5 }; enum class EC : short { x = -2, y = 7 };
+namespace pns { void nf() {} int ng; enum NE { na, nb }; struct PK { int pm; void pmf() {} static void psf() {} }; }
+'''
+
+# (template parameter declaration, [arguments])  -- forms common to g++ and clang++ (C++17)
+KINDS17 = [
+    ("void (*P)()", ["&fn0", "&pns::nf", "&KM::sf", "&pns::PK::psf", "nullptr"]),
+    ("void (*P)(int)", ["&fn1"]),
+    ("void (&P)()", ["fn0", "pns::nf"]),
+    ("int &P", ["gv0", "pns::ng", "KM::sm"]),
+    ("int *P", ["&gv0", "&pns::ng", "&KM::sm", "nullptr"]),
+    ("long (&P)[4]", ["gv1"]),
+    ("int KM::*P", ["&KM::m", "nullptr"]),
+    ("void (KM::*P)()", ["&KM::mf"]),
+    ("void (pns::PK::*P)()", ["&pns::PK::pmf"]),
+    ("int P", ["0", "3", "-5", "2147483647", "(-2147483647-1)", "012", "0x1f"]),
+    ("unsigned P", ["0u", "7u", "4294967295u"]),
+    ("long P", ["-1L", "1234567890123L"]),
+    ("unsigned long P", ["42ul"]),
+    ("long long P", ["-9LL"]),
+    ("unsigned long long P", ["18446744073709551615ULL"]),
+    ("short P", ["-3", "9"]),
+    ("unsigned short P", ["65535"]),
+    ("bool P", ["true", "false"]),
+    ("char P", ["'a'", "'\\0'"]),
+    ("signed char P", ["-7"]),
+    ("unsigned char P", ["200"]),
+    ("wchar_t P", ["L'x'"]),
+    ("char16_t P", ["u'y'"]),
+    ("char32_t P", ["U'z'"]),
+    ("__int128 P", ["5"]),
+    ("decltype(nullptr) P", ["nullptr"]),
+    ("E0 P", ["E0a", "E0b"]),
+    ("EC P", ["EC::x", "EC::y"]),
+    ("pns::NE P", ["pns::nb"]),
+    ("auto P", ["3", "&fn0", "'c'", "true"]),
+    ("int P, int Q", ["1, 2", "-1, 0"]),
+    ("class T, int P", ["int, 3", "KM, -1", "void (*)(int), 0"]),
+    ("int P, class T", ["4, char"]),
+    ("int... Ps", ["1, 2, 3", ""]),
+    ("template<int> class TT, int P", None),   # filled below
+]
+KINDS20 = [
+    ("S2 P", ["S2{1, 2}", "S2{-1, 0}"]),
+]
+# C++20 floating-point non-type arguments (`Ld400a000000000000E`): the demangler cannot parse the hex
+# float literal (observation F10k) -- only generated when the check is told to
+KINDS20_FLOAT = [
+    ("double P", ["3.25", "-0.5"]),
+    ("float P", ["1.5f"]),
+]
+PRELUDE20 = "struct S2 { int a; int b; };\n"
+
+OPS = ["+", "==", "()", "[]", "->", "<<", "!", "new", "delete"]
+
+
+def nttp_source(rng, cxx20=False, nkinds=None, with_float=False):
+    """class templates with non-type template arguments at outer and nested positions, followed by member
+    functions, ctors, dtors, operators, nested classes and nested templates.
+    returns (source text, {line: (expected, kind)})"""
+    lines = ["#include <typeinfo>", PRELUDE.strip("\n")] + ([PRELUDE20.strip("\n")] if cxx20 else [])
+    lines = "\n".join(lines).split("\n")
+    linemap = {}
+    inst = []
+    uid = [0]
+
+    def fresh(p):
+        uid[0] += 1
+        return "%s%d" % (p, uid[0])
+
+    def emit(t, exp=None, kind=None):
+        lines.append(t)
+        if exp is not None:
+            linemap[len(lines)] = (exp, kind)
+
+    def members(q, cname, depth=0):
+        """member definitions of class `cname` with qualified expected prefix q (ends with ::)"""
+        emit("%s() { }" % cname, q + cname, "nttp:ctor")
+        emit("~%s() { }" % cname, q + "~" + cname, "nttp:dtor")
+        emit("void %s(int) { }" % fresh("m"), q + "m%d" % uid[0], "nttp:method")
+        emit("static long %s(char, bool) { return 0; }" % fresh("sm"), q + "sm%d" % uid[0], "nttp:method")
+        emit("void %s() const { }" % fresh("cm"), q + "cm%d" % uid[0], "nttp:method")
+        op = rng.choice(OPS)
+        if op == "->":
+            emit("%s *operator->() { return this; }" % cname, q + "operator->", "nttp:operator")
+        elif op == "new":
+            emit("void *operator new(unsigned long) { return 0; }", q + "operator new", "nttp:operator")
+        elif op == "delete":
+            emit("void operator delete(void *) { }", q + "operator delete", "nttp:operator")
+        elif op == "!":
+            emit("bool operator!() { return true; }", q + "operator!", "nttp:operator")
+        else:
+            emit("int operator%s(int) { return 0; }" % op, q + "operator" + op, "nttp:operator")
+        emit("operator long() { return 0; }", q + "operator(cast)", "nttp:operator")
+        emit("template<class U> void %s(U) { }" % fresh("tm"), q + "tm%d" % uid[0], "nttp:ftemplate")
+        return "tm%d" % uid[0]
+
+    kinds = list(KINDS17) + (list(KINDS20) if cxx20 else []) + (list(KINDS20_FLOAT) if cxx20 and with_float else [])
+    if nkinds is not None and nkinds < len(kinds):
+        # always keep the address/reference forms (first 9), sample the rest
+        kinds = kinds[:9] + rng.sample(kinds[9:], max(0, nkinds - 9))
+    emit("template<int N> struct TTarg { };")
+    emit("template<class T> struct Wrap {")       # plain outer template for nested positions
+    wrap_inner = []
+    emit("};")
+    wrap_line = len(lines)   # index of the closing brace (1-based) -> we insert before it later
+    body_wrap = []
+    emit("namespace ns {")
+    for decl, args in kinds:
+        if args is None:
+            args = ["TTarg, 6"]
+        name = fresh("C")
+        q = "ns::%s::" % name
+        emit("template<%s> struct %s {" % (decl, name))
+        tm = members(q, name)
+        inn = fresh("In")
+        emit("struct %s {" % inn)
+        members(q + inn + "::", inn)
+        in2 = fresh("Deep")
+        emit("struct %s { void %s() { } int fld_; };" % (in2, fresh("dm")), q + inn + "::" + in2 + "::dm%d" % uid[0], "nttp:method")
+        emit("int fld_; };")
+        # nested template (plain and non-type) inside the non-type template
+        it = fresh("InT")
+        emit("template<class V, int W> struct %s { void %s(V) { } %s() { } };" % (it, fresh("im"), it),
+             None, None)
+        # two definitions on one line share the line: map the line to the method (ctor has its own expected) -> split
+        lines.pop()
+        emit("template<class V, int W> struct %s {" % it)
+        emit("void %s(V) { }" % fresh("im"), q + it + "::im%d" % uid[0], "nttp:method")
+        emit("%s() { }" % it, q + it + "::" + it, "nttp:ctor")
+        emit("};")
+        emit("int fld_; };")
+        for a in args:
+            inst.append("template struct ns::%s<%s >;" % (name, a))
+            inst.append("template void ns::%s<%s >::%s<char>(char);" % (name, a, tm))
+            inst.append("template struct ns::%s<%s >::%s<long, -4>;" % (name, a, it))
+        # the same non-type template nested in a plain class template and used as a type argument
+        n2 = fresh("N")
+        body_wrap.append((decl, n2, args))
+    emit("template<class T, class U2 = int> struct Plain { void run(T) { } Plain() { } };", None, None)
+    lines.pop()
+    emit("template<class T, class U2 = int> struct Plain {")
+    emit("void run(T) { }", "ns::Plain::run", "nttp:method")
+    emit("Plain() { }", "ns::Plain::Plain", "nttp:ctor")
+    emit("};")
+    emit("}")
+    # nested position: Wrap<T>::N<arg>::f
+    emit("template<class T> struct Wrap2 {")
+    for decl, n2, args in body_wrap:
+        if "class T" in decl:
+            continue
+        emit("template<%s> struct %s {" % (decl, n2))
+        emit("void %s(T) { }" % fresh("wf"), "Wrap2::%s::wf%d" % (n2, uid[0]), "nttp:method")
+        emit("%s() { }" % n2, "Wrap2::%s::%s" % (n2, n2), "nttp:ctor")
+        emit("struct Leaf { void %s() { } int fld_; };" % fresh("lf"), "Wrap2::%s::Leaf::lf%d" % (n2, uid[0]), "nttp:method")
+        emit("int fld_; };")
+        for a in args[:2]:
+            inst.append("template struct Wrap2<KM>::%s<%s >;" % (n2, a))
+    emit("};")
+    # function templates whose signature keeps dependent expressions (X…E after the name)
+    emit("template<bool B, class T = void> struct En { }; template<class T> struct En<true, T> { typedef T type; };")
+    emit("template<int N> struct Val { typedef int type; };")
+    emit("namespace fx {")
+    FX = [
+        ("template<class T> typename En<sizeof(T) == 4, int>::type %s(T) { return 0; }", "{ int v = 0; F(v); }"),
+        ("template<class T> typename En<(sizeof(T) > 1) && !(sizeof(T) > 64)>::type %s(T) { }", "{ long v = 0; F(v); }"),
+        ("template<class T> typename Val<sizeof(T) + alignof(T) * 2>::type %s(T) { return 0; }", "F('c');"),
+        ("template<class T> typename Val<(sizeof(T) << 1) | 1>::type %s(T *) { return 0; }", "{ double d = 0; F(&d); }"),
+        ("template<class T> typename Val<sizeof(T) ? 1 : 2>::type %s(T) { return 0; }", "F(1);"),
+        ("template<class T> typename Val<-int(sizeof(T))>::type %s(T) { return 0; }", "F(1);"),
+        ("template<class T> auto %s(T a, T b) -> decltype(a + b) { return a + b; }", "F(1, 2);"),
+        ("template<class T> auto %s(T a) -> decltype(a.m) { return a.m; }", "F(KM());"),
+        ("template<class T> auto %s(T a) -> decltype(a(1)) { return a(1); }", "F(KM());"),
+        ("template<class T> auto %s(T *a) -> decltype(a->mf()) { }", "{ KM k; F(&k); }"),
+        ("template<class T> auto %s(T a) -> decltype(T::sm) { return T::sm; }", "F(KM());"),
+        ("template<class T> auto %s(T a) -> decltype(a < a ? a : a) { return a; }", "F(1);"),
+        ("template<class T> auto %s(T a) -> decltype(&a) { return 0; }", "F(1);"),
+        ("template<class T> auto %s(T a) -> decltype(*a) { return *a; }", "{ int v = 0; F(&v); }"),
+        ("template<class T> auto %s(T a) -> decltype(a[0]) { return a[0]; }", "{ int v = 0; F(&v); }"),
+        ("template<class T> auto %s(T a) -> decltype(sizeof(a)) { return 0; }", "F(1);"),
+        ("template<class... A> auto %s(A... a) -> decltype(sizeof...(A)) { return 0; }", "F(1, 'c');"),
+        ("template<class T> auto %s(T a) -> decltype(T{}) { return a; }", "F(1);"),
+        ("template<class T> auto %s(T a) -> decltype(a++ + --a) { return a; }", "F(1);"),
+        ("template<class T> auto %s(T a) -> decltype((a == a) + (a != a) + (a >= a) + (a <= a) + (a >> 1) + (a & a) + (a ^ a) + !a) { return 0; }", "F(1);"),
+        ("template<class T> auto %s(T a) -> decltype(static_cast<T>(a) * T(a) - (T)a) { return a; }", "F(1L);"),
+        ("template<class T> typename Val<-int(sizeof(T)) %% 3>::type %s(T) { return 0; }", "F(1);"),
+        ("template<class T> auto %s(T a) -> decltype(a.template tq<int>()) { }", "F(fx::Tq());"),
+    ]
+    emit("struct Tq { template<class U> void tq() { } };")
+    calls = []
+    for tpl, call in FX:
+        f = fresh("fx")
+        emit(tpl % f, "fx::" + f, "nttp:fexpr")
+        calls.append(call.replace("F(", "fx::%s(" % f))
+    emit("}")
+    emit("void use_fx() {")
+    for c in calls:
+        emit(" " + c)
+    emit("}")
+    # Plain<Caller<&fn0>> : non-type argument inside a type argument of an outer template
+    for i in [x for x in inst if isinstance(x, str) and x.startswith("template struct ns::C")][:12]:
+        m = re.match(r"template struct (ns::C\d+<.* >);", i)
+        if m and "void (*)(int)" not in m.group(1):
+            inst.append("template struct ns::Plain<%s >;" % m.group(1))
+    for i in inst:
+        if isinstance(i, str):
+            emit(i)
+    return "\n".join(lines) + "\n", linemap
